@@ -170,6 +170,33 @@ def ci (skip : Bool) (m : BMetric) (rows : List WRow) (idxs : List (List Nat)) (
              diffBetween := db, diffOverall := dO, ratioBetween := rb, ratioOverall := ro }
     | _, _, _, _, _, _, _, _ => none
 
+/-! ### control features and several metrics: one CI per (metric, control level)
+
+fairlearn resamples the WHOLE data frame (`all_data.sample(..)`) and then groups the resampled rows by control level
+and sensitive feature; the CI entry of (metric m, level L) is computed from the column of m's values at L over the
+resamples.  `ciAt` computes it from the unsplit data: the rows of level L and, per resample, the drawn positions that
+point at rows of level L (renumbered within the level). -/
+
+/-- a data row with its control level -/
+abbrev TRow := Nat × WRow
+
+def levelRows (L : Nat) (tr : List TRow) : List WRow := (tr.filter (fun p => p.1 == L)).map (·.2)
+
+/-- position of data row i among the rows of level L -/
+def rank (L : Nat) (tr : List TRow) (i : Nat) : Nat := ((tr.take i).filter (fun p => p.1 == L)).length
+
+/-- the positions of one resample that hit level L, renumbered within the level -/
+def restrict (L : Nat) (tr : List TRow) (idx : List Nat) : List Nat :=
+  (idx.filter (fun i => ((tr[i]?).map (fun p => p.1 == L)).getD false)).map (rank L tr)
+
+def ciAt (L : Nat) (m : BMetric) (tr : List TRow) (idxs : List (List Nat)) (qs : List Rat) : Option CI :=
+  ci true m (levelRows L tr) (idxs.map (restrict L tr)) qs
+
+/-- all `*_ci` results of a bootstrapped MetricFrame with a metric dict and a control feature -/
+def ciFrame (ms : List BMetric) (levels : List Nat) (tr : List TRow) (idxs : List (List Nat)) (qs : List Rat) :
+    List (List (Option CI)) :=
+  ms.map (fun m => levels.map (fun L => ciAt L m tr idxs qs))
+
 /-! ### driver glue -/
 
 def parseBMetric (s pos : String) : Option BMetric :=
@@ -194,7 +221,9 @@ def CI.fmt (c : CI) : String :=
 /-- ops:
   `boot.quantile <xs> <q>`                                                     -> numpy linear quantile
   `boot.ci <skip 0|1> <metric> <pos> <g> <yt> <yp> <pred> <w|none> <idxs> <qs>` -> keys overall bygroup gmin gmax db do rb ro
-  (`idxs`: resamples separated by ';', each a comma list of row positions, 'e' = empty resample) -/
+  (`idxs`: resamples separated by ';', each a comma list of row positions, 'e' = empty resample)
+  `boot.ciat <level> <tags> <metric> <pos> <g> <yt> <yp> <pred> <w|none> <full idxs> <qs>` -> the same for one control level,
+  computed from the unsplit data -/
 def handle (toks : List String) : Option String :=
   match toks with
   | ["boot.quantile", xs, q] => do
@@ -209,6 +238,18 @@ def handle (toks : List String) : Option String :=
     let qs ← Proto.parseRats qs
     if idxs.isEmpty || qs.isEmpty || qs.any (fun q => q ≤ 0 || 1 ≤ q) then none
     else match ci skip m rows idxs qs with
+      | some c => pure c.fmt
+      | none => pure "unsupported"
+  | ["boot.ciat", level, tags, m, pos, g, yt, yp, pred, w, idxs, qs] => do
+    -- as `boot.ci 1 ..` but on the UNSPLIT data: `tags` = control level of every row, `idxs` = full resamples
+    let level ← Proto.parseNat level
+    let tags ← Proto.parseNats tags
+    let m ← parseBMetric m pos
+    let rows ← mkRows "w" g yt yp pred w
+    let idxs ← (idxs.splitOn ";").mapM Proto.parseNats
+    let qs ← Proto.parseRats qs
+    if tags.length != rows.length || idxs.isEmpty || qs.isEmpty || qs.any (fun q => q ≤ 0 || 1 ≤ q) then none
+    else match ciAt level m (tags.zip rows) idxs qs with
       | some c => pure c.fmt
       | none => pure "unsupported"
   | _ => none
